@@ -13,6 +13,7 @@ oracle     implementation only: a call that raised xml.dom.DOMException must lea
            owner rule, its sheet and the argument objects unchanged; objects created read-only must reject every
            mutator with NoModificationAllowedErr and stay unchanged
 """
+import json
 import os
 import xml.dom
 
@@ -185,10 +186,40 @@ class C11(Check):
             ctx.notes['not_guard_first'] = sorted(n for n, p in infos.items() if p['guarded'] == '0')
         cases = self.corpus_cases(ctx) + self.gen_cases(ctx, by_name)
         pending = []
-        for case in cases:
-            self.one(ctx, case, by_name, index, pending)
+        self.all_cases(ctx, cases, by_name, index, pending)
         self.flush(ctx, pending, index)
         self.readonly_oracle(ctx, by_name)
+
+    def all_cases(self, ctx, cases, by_name, index, pending):
+        """the implementation stream (build the state, call the mutator under the tracer, snapshots, decision search)
+        runs in forked workers; what a worker would have reported is replayed here in case order, so counts, evidence
+        and verdicts are those of the sequential loop. A case whose worker hung or died is redone in this process."""
+        nproc = int(os.environ.get('VERIF_C11_PROCS', '6'))
+        if nproc <= 1 or len(cases) < 50:
+            for case in cases:
+                self.one(ctx, case, by_name, index, pending)
+            return
+        from lib import pool
+
+        def work(case):
+            rc = _RecCtx(ctx)
+            pend = []
+            self.one(rc, case, by_name, index, pend)
+            slim = [(c, {k: o[k] for k in ('readonly', 'outcome', 'trace', 'fields_changed')}, r['name'], bits, ex, dirty,
+                     deep) for c, o, r, bits, ex, dirty, deep in pend]
+            return json.loads(json.dumps([rc.log, slim], default=str))
+        for case, res in pool.run_cases(work, cases, nproc=nproc, timeout=60.0):
+            if res is None or res[0] != 'ok':
+                ctx.count('pool:redone-in-process')
+                self.one(ctx, case, by_name, index, pending)
+                continue
+            log, slim = res[1]
+            for name, a, kw in log:
+                if name == 'case':
+                    kw['key'] = _tup(kw['key'])
+                getattr(ctx, name)(*a, **kw)
+            for c, o, rname, bits, ex, dirty, deep in slim:
+                pending.append((c, o, by_name[rname], bits, ex, dirty, deep))
 
     def corpus_cases(self, ctx):
         import json
@@ -508,6 +539,30 @@ class C11(Check):
         pending = []
         self.one(ctx, dict(w, kind='replay'), by_name, index, pending)
         self.flush(ctx, pending, index)
+
+
+def _tup(x):
+    return tuple(_tup(y) for y in x) if isinstance(x, list) else x
+
+
+class _RecCtx:
+    """stands in for the framework context inside a pool worker: records the reports"""
+
+    def __init__(self, ctx):
+        self.repo, self.verif, self.model_ok = ctx.repo, ctx.verif, ctx.model_ok
+        self.log = []
+
+    def case(self, **kw):
+        self.log.append(('case', [], kw))
+
+    def count(self, *a, **kw):
+        self.log.append(('count', list(a), kw))
+
+    def violate(self, *a, **kw):
+        self.log.append(('violate', list(a), kw))
+
+    def disagree(self, *a, **kw):
+        self.log.append(('disagree', list(a), kw))
 
 
 def marks_of(s):
